@@ -193,6 +193,17 @@ impl Fp {
         }
         push("all-ones".into(), pow2(64 * nlimbs) - 1u32);
         push("p-2^64".into(), p - pow2(64));
+        // Elements whose *Montgomery representation* (x*R mod p) is sparse: a single limb equal to 1
+        // or to all-ones. Limb-wise zero tests / carries in Montgomery-form code see these as the
+        // value-level limb classes above never produce them.
+        let r_inv = (r.clone() % p).modpow(&(p - 2u32), p);
+        for k in 0..nlimbs {
+            push(format!("mont-limb{k}-one"), (pow2(64 * k) % p) * &r_inv);
+            let ones = (pow2(64) - 1u32) << (64 * k);
+            if &ones < p {
+                push(format!("mont-limb{k}-ones"), ones * &r_inv);
+            }
+        }
         push(format!("2^{}-1", bits - 1), pow2(bits - 1) - 1u32);
         for i in 0..n_seeded {
             push(format!("seeded{i}"), random_below(rng, p));
